@@ -108,6 +108,13 @@ def body():
             cases.append(case(rng.random() < 0.5, rand32(rng), rand32(rng), "random"))
         for _ in range(20000 if thorough else 2500):
             cases.append(canonical_value(rng))
+        # mainnet claims made with junk in the rollup bits (the bridge contract ignores them, the event carries them): the triple of
+        # the certificate keeps them, every consumer fed from the certificate carries the composed value
+        for _ in range(4000 if thorough else 500):
+            r, l = rand32(rng) or 1, rand32(rng)
+            c = case(True, r, l, "noncanon")
+            c["raw"] = str((1 << 64) | (r << 32) | l)
+            cases.append(c)
         rng.shuffle(cases)
         behs = group(cases, rng)
         rb = V.replay_behaviours()
@@ -210,7 +217,7 @@ def body():
                  "for which every codec step and every consumer of the flow was recorded (counted from the trace)",
             byte_patterns_covered=len(patterns), byte_patterns_total=512,
             consumer_observations=carries, trace_events=len(evs),
-            cases_by_source={s: sum(1 for c in run_cases if c.get("src") == s) for s in ("pattern", "boundary", "random", "canon")},
+            cases_by_source={s: sum(1 for c in run_cases if c.get("src") == s) for s in ("pattern", "boundary", "random", "canon", "noncanon")},
             pattern_instantiations=n_pat,
             certificates=dict(pp=sum(1 for b in behs if b["flow"] == "pp"), fep=sum(1 for b in behs if b["flow"] == "fep")),
             consumers=["cert_struct", "cert_json", "cert_json_rt", "cert_json_map", "gi_hash", "le_bytes", "pp_hash", "fep_hash",
